@@ -8,7 +8,10 @@ CONSTANTS
   BugDelOpt = FALSE
   BugSkipLeft = TRUE
   BugRecompute = FALSE
+  BugOptTtl = FALSE
+  BugOptName = FALSE
+  BugInsertOrder = FALSE
 INIT Init2
 NEXT Next
-INVARIANTS NoBad ViewCoherent EdnsCoherent FlagSound CacheCoherent CursorCoherent
+INVARIANTS NoBad ViewCoherent EdnsCoherent FlagSound CacheCoherent CursorCoherent OptKeepsRoot NoJunk
 CHECK_DEADLOCK FALSE
